@@ -93,18 +93,22 @@ def check(ctx):
         ctx.ob('R13.1', 'selection happens after validation', any(dom_c(b, e, lk.id)
                                                                   for e in exits), node=lk,
                message='entries are selected before validation completed')
-        sl = None
-        for d in g.dominators(lk.id):
-            if g.n(d).kind == 'loop' and g.n(d).data.get('kind') == 'generator':
-                sl = g.n(d)
-                break
-        same_exp = False
-        if sl is not None:
-            for v in vloops:
-                if v.data.get('kind') == 'generator' and v.data['gen'] == sl.data['gen'] and \
-                        alt_ids(v.data['gen_args'].get('self', NONE)) == \
-                        alt_ids(sl.data['gen_args'].get('self', NONE)):
-                    same_exp = True
+        def signature(lp):
+            # what a loop iterates: a generator method of given objects, or an iterable
+            if lp.data.get('kind') == 'generator':
+                return ('gen', lp.data['gen'],
+                        frozenset(alt_ids(lp.data['gen_args'].get('self', NONE))))
+            if lp.data.get('kind') == 'for' and lp.data.get('iter') is not None:
+                return ('iter', frozenset(alt_ids(lp.data['iter'])))
+            return None
+        sel = [g.n(d) for d in g.dominators(lk.id)
+               if g.n(d).kind == 'loop' and g.n(d).func == lk.func]
+        gens = [x for x in sel if x.data.get('kind') == 'generator']
+        if gens:
+            sel = gens[:1]          # the expansion is one generator: that is the loop
+        s_sig = set(signature(x) for x in sel) - {None}
+        v_sig = set(signature(v) for v in vloops) - {None}
+        same_exp = bool(s_sig) and s_sig <= v_sig
         ctx.ob('R13.1', 'validation and selection iterate the same index expansion', same_exp,
                node=lk, message='the indexes used for selection are not the ones validated')
     # ---- R13.3 one materialised sequence
